@@ -11,6 +11,9 @@ Parts (all rebuilt from the current tree of VERIF_REPO on every run):
                timed_single_thread_context: monitors + trace inclusion in Proto/TimerOp
   monitors     2 more scenarios (schedule_after, 3 timers, past due times): monitors only
   sbs          stop requested before start() on thread_unsafe_event_loop, op-state in poisoned storage
+  epolltimer   io_epoll_context schedule_at under the controlled scheduler (timerfd on the virtual clock, rt_io.cpp):
+               5 scenarios (remote cancel racing the expiry, local cancel, due order / re-arm, stop before start):
+               monitors + trace inclusion in Proto/EpollTimer; epollmonitors: one more scenario, monitors only
 """
 import os, random, subprocess, time
 from .. import vlib
@@ -537,38 +540,40 @@ class SeqDiffPart:
 
 class MonitorOnlyPart:
     """scenarios without a Lean configuration: only the harness' own monitors decide"""
-    name = "monitors"
-
-    def __init__(self, scenarios):
-        self.scenarios = scenarios
+    def __init__(self, scenarios, name="monitors", scn_cpp="scn_c07.cpp", libs=None, extra_srcs=(), quick=(1000, 150)):
+        self.scenarios, self.name, self.scn_cpp, self.libs, self.extra_srcs, self.quick = scenarios, name, scn_cpp, libs, list(extra_srcs), quick
 
     def run(self, tier, seed, verdict, cov, driver):
         t0 = time.time()
         try:
-            exe = vlib.build_rt("scn_c07.cpp", RT_SOURCES)
+            exe = vlib.build_rt(self.scn_cpp, self.libs if self.libs is not None else RT_SOURCES,
+                                **(dict(extra_srcs=self.extra_srcs) if self.extra_srcs else {}))
         except vlib.BuildError as e:
-            verdict.add("monitors:build", str(e)[-1200:], dict(stream="monitors"), found_input=False)
+            verdict.add(f"{self.name}:build", str(e)[-1200:], dict(stream=self.name), found_input=False)
             return
         for scn in self.scenarios:
-            runs = [vlib.run_rt(exe, scn, "dfs", 2, 1000 if tier == "quick" else 40000, seed),
-                    vlib.run_rt(exe, scn, "random", 0, 150 if tier == "quick" else 5000, seed),
-                    vlib.run_rt(exe, scn, "pct", 3, 150 if tier == "quick" else 5000, seed + 7)]
+            runs = [vlib.run_rt(exe, scn, "dfs", 2, self.quick[0] if tier == "quick" else 40000, seed),
+                    vlib.run_rt(exe, scn, "random", 0, self.quick[1] if tier == "quick" else 5000, seed),
+                    vlib.run_rt(exe, scn, "pct", 3, self.quick[1] if tier == "quick" else 5000, seed + 7)]
             hs = set()
             for r in runs:
                 cov["evaluations"] += r["stats"].get("executions", 0)
                 cov["with_preemption"] += r["stats"].get("with_preemption", 0)
                 for sched, why, h in r["fails"]:
-                    verdict.add(f"monitors/{scn}: {why.split(' && ')[0][:120]}", why,
-                                dict(stream="monitors", scenario=scn, schedule=sched, history=h.split(" ; "),
+                    verdict.add(f"{self.name}/{scn}: {why.split(' && ')[0][:120]}", why,
+                                dict(stream=self.name, scenario=scn, schedule=sched, history=h.split(" ; "),
                                      replay_cmd=f"{exe} --scenario {scn} --replay {sched}"))
                 for _, _, h in r["hist"]:
                     hs.add(h)
-            cov["exhaustive_dfs"][f"monitors/{scn}"] = bool(runs[0]["stats"].get("exhausted", 0))
-            cov["distinct_histories"][f"monitors/{scn}"] = len(hs)
+            cov["exhaustive_dfs"][f"{self.name}/{scn}"] = bool(runs[0]["stats"].get("exhausted", 0))
+            cov["distinct_histories"][f"{self.name}/{scn}"] = len(hs)
         cov["parts_wall_s"][self.name] = round(time.time() - t0, 1)
 
 
 SCENARIOS = ["one_cancel", "two_order", "two_equal", "stop_before_start", "two_cancel", "three_equal"]
+# io_epoll_context timers (harness/rt/scn_c07_epoll.cpp + rt_io.cpp: timerfd on the virtual clock) vs Proto/EpollTimer
+EP_SOURCES = ["linux/io_epoll_context.cpp", "linux/safe_file_descriptor.cpp", "linux/monotonic_clock.cpp", "inplace_stop_token.cpp"]
+EP_SCENARIOS = ["ep_cancel_at_due", "ep_remote_cancel", "ep_local_cancel", "ep_two_order", "ep_stop_before_start"]
 
 
 def run(tier, seed, replay=None):
@@ -581,10 +586,15 @@ def run(tier, seed, replay=None):
                    quick=dict(preemptions=2, max_execs=2000), thorough=dict(preemptions=3, max_execs=60000),
                    random_execs=(150, 5000)),
         MonitorOnlyPart(["after_three", "past_due"]),
+        AtomicPart("epolltimer", "scn_c07_epoll.cpp", EP_SOURCES, "epolltimer", EP_SCENARIOS, extra_srcs=["rt_io.cpp"],
+                   quick=dict(preemptions=2, max_execs=1000), thorough=dict(preemptions=3, max_execs=40000),
+                   random_execs=(150, 4000)),
+        MonitorOnlyPart(["ep_three"], name="epollmonitors", scn_cpp="scn_c07_epoll.cpp", libs=EP_SOURCES, extra_srcs=["rt_io.cpp"], quick=(600, 100)),
     ]
     return run_check(
         "C07", tier, seed,
-        ["UnifexModel.Props.C07", "UnifexModel.Props.C07_Queue", "UnifexModel.Props.C07_Clock", "UnifexModel.Props.C07_Cancel", "UnifexModel.Props.C07_TwoCancel"],
+        ["UnifexModel.Props.C07", "UnifexModel.Props.C07_Queue", "UnifexModel.Props.C07_Clock", "UnifexModel.Props.C07_Cancel", "UnifexModel.Props.C07_TwoCancel",
+         "UnifexModel.Props.C07_Epoll", "UnifexModel.Props.C07_EpollOrder", "UnifexModel.Props.C07_EpollRace", "UnifexModel.Props.C07_EpollRace2"],
         parts,
         rule="clock: one case = one operand tuple evaluated by the compiled header and by the regenerated Lean definition (boundary grid + seeded random), "
              "non-trivial = distinct (function, result) pairs that agree; queue/seqdiff: one case = one operation sequence (all arrival orders of "
@@ -596,9 +606,12 @@ def run(tier, seed, replay=None):
                      "critical sections of timed_single_thread_context::mutex_ are atomic steps (Lipton reduction; nothing blocks inside one), inplace_stop_source protocol atomic (C03)",
                      "no spurious condition-variable wake-ups (the code tolerates them; a wait that NEEDS one is reported as lost wake-up)",
                      "TimerOp instances: <=2 timers, one canceller, clock 0..2 (theorems per instance, all schedules of unbounded length)",
-                     "io_epoll/io_uring timers are not exercised (only their clock arithmetic and intrusive_heap)"],
-        trusted_extra=["harness/rt (cooperative scheduler, virtual clock)", "Core/Admit.lean trace-inclusion test", "tools/cxx2lean_clock.py front end (validated differentially each run)",
+                     "io_epoll_context timers: remote queue wake-up protocol as one step (C14), stop source atomic (C03), kernel semantics of timerfd/eventfd/epoll ASSUMED "
+                     "(in the harness the timerfd is simulated on the virtual clock by harness/rt/rt_io.cpp); EpollTimer instances: <=2 timers, one canceller, clock 0..2",
+                     "io_uring timers are not exercised (only the shared clock arithmetic and intrusive_heap)"],
+        trusted_extra=["harness/rt (cooperative scheduler, virtual clock)", "harness/rt/rt_io.cpp (syscall interposition, virtual timerfd)", "Core/Admit.lean trace-inclusion test", "tools/cxx2lean_clock.py front end (validated differentially each run)",
                        "g++ 12 -fsanitize=thread instrumentation; ASan+UBSan for the plain harnesses"],
         explanation="Theorems: Props/C07_Clock (all operands, about the regenerated definitions), Props/C07 part 1 + C07_Queue (parametric queue theorems, uniqueness of the sorted stable order), "
-                    "Props/C07 + C07_Cancel + C07_TwoCancel *_safe (kernel-evaluated closure per instance). Tie: translator + differential for the clock; "
-                    "sequential differential for the three queue implementations; trace inclusion + independent monitors for timed_single_thread_context.")
+                    "Props/C07 + C07_Cancel + C07_TwoCancel *_safe (timed_single_thread_context) and Props/C07_Epoll + C07_EpollOrder + C07_EpollRace + C07_EpollRace2 ep_*_safe (io_epoll_context timers: "
+                    "the elapsed-vs-remote-cancel election has one winner) — kernel-evaluated closure per instance. Tie: translator + differential for the clock; "
+                    "sequential differential for the three queue implementations; trace inclusion + independent monitors for timed_single_thread_context and for the io_epoll_context timers.")
